@@ -402,7 +402,8 @@ class SymdelDB:
 
 
     def __init__(self, seqs, max_edits):
-        self.seqs = seqs
+        # positional copy: seqs may be a pandas Series whose labels are not 0..n-1
+        self.seqs = list(seqs)
         self.max_edits = max_edits
         self.variant_dict = {}
         for i, seq in enumerate(seqs):
@@ -462,10 +463,10 @@ class SymdelDB:
                 for j in self.variant_dict[comb]:
                     j_indices.add(j)
             for j in j_indices:
-                dist = custom_distance(seqs2[i], self.seqs[j])
+                dist = custom_distance(seq, self.seqs[j])
                 if dist > threshold:
                     continue
-                if is_custom and levenshtein(seqs2[i], self.seqs[j]) > self.max_edits:
+                if is_custom and levenshtein(seq, self.seqs[j]) > self.max_edits:
                     continue
                 ans.append((i, j, dist))
 
@@ -545,10 +546,11 @@ def symdel(seqs, max_edits=1, max_returns=None, n_cpu=1,
             if len(values) == 1:
                 continue
             for i, j in combinations(values, 2):
-                dist = custom_distance(seqs[i], seqs[j])
+                seq_i, seq_j = symdeldb.seqs[i], symdeldb.seqs[j]
+                dist = custom_distance(seq_i, seq_j)
                 if dist > threshold:
                     continue
-                if is_custom and levenshtein(seqs[i], seqs[j]) > max_edits:
+                if is_custom and levenshtein(seq_i, seq_j) > max_edits:
                     continue
                 ans.add((i, j, dist))
                 ans.add((j, i, dist))
